@@ -148,6 +148,46 @@ def load_collision(sym, cell2, with_unified):
     sym.check("no-refusal-without-collision", sym.implies(raised, sym.and_(enforced, collide, differ)))
 
 
+def load_onto_existing(sym, cell2, with_unified):
+    """a document is loaded into a manifest that already holds an image (from earlier add calls or an earlier load): the loaded images
+    are checked against the ones that are there"""
+    major = sym.int("major", 1, 2)
+    minor = sym.int("minor", 0, 3)
+    a = image_dict(sym, 0, with_unified)
+    b = image_dict(sym, 1, with_unified)
+    sym.assume(a["path"] != b["path"])
+    collide = sym.and_(*[sym.same(a[k], b[k]) for k in ["subvariant", "type", "format", "arch", "disc_number"]])
+    differ = sym.not_(sym.same(a["checksums"], b["checksums"]))
+    im = Images()
+    held = Image(im)
+    for k, v in a.items():
+        setattr(held, k, dict(v) if isinstance(v, dict) else list(v) if isinstance(v, list) else v)
+    try:
+        im.add("Server", "x86_64", held)
+    except ValueError:
+        return
+    v2, a2 = CELLS[cell2]
+    doc = {
+        "header": {"version": "%d.%d" % (major, minor), "type": "productmd.images"},
+        "payload": {"compose": {"id": "Fedora-20-20131212.0", "type": "production", "date": "20131212", "respin": 0}, "images": {v2: {a2: [b]}}},
+    }
+    try:
+        im.loads(json.dumps(doc))
+        raised = False
+    except ValueError:
+        raised = True
+    sym.cover("loaded")
+    enforced = sym.or_(major > 1, sym.and_(major == 1, minor >= 1))
+    sym.check("collision-with-a-held-image-rejected-from-1.1", sym.implies(sym.and_(enforced, collide, differ), raised))
+    if not raised:
+        imgs = all_images(im)
+        sym.check("held-image-still-there", any(x is held for x in imgs))
+        for x in range(len(imgs)):
+            for y in range(x + 1, len(imgs)):
+                sym.check("invariant-after-load[%d,%d]" % (x, y),
+                          sym.implies(sym.and_(enforced, same_identity(sym, imgs[x], imgs[y])), sym.same(imgs[x].checksums, imgs[y].checksums)))
+
+
 def identity_object_vs_dict(sym, unified_choice, drop_defaults):
     """identify_image gives the same identity for an Image and for its serialised dictionary"""
     im = Images()
@@ -181,6 +221,8 @@ def jobs(tier, seed):
     for cell2 in (0, 1, 2):
         for wu in (False, True):
             out.append({"harness": "load_collision", "params": {"cell2": cell2, "with_unified": wu}})
+    for cell2 in (0, 1, 2):
+        out.append({"harness": "load_onto_existing", "params": {"cell2": cell2, "with_unified": bool(cell2 % 2)}})
     for uc in (0, 1, 2, 3):
         for dd in (False, True):
             out.append({"harness": "identity_object_vs_dict", "params": {"unified_choice": uc, "drop_defaults": dd and uc == 0}})
@@ -188,7 +230,7 @@ def jobs(tier, seed):
 
 
 META = {
-    "expected_covers": {"add_step": ["pre-state", "added"], "load_collision": ["loaded"], "identity_object_vs_dict": ["serialised"]},
+    "expected_covers": {"add_step": ["pre-state", "added"], "load_collision": ["loaded"], "load_onto_existing": ["loaded"], "identity_object_vs_dict": ["serialised"]},
     "assumptions": [
         "inductive step: the pre-state is any manifest of 1-2 (thorough: up to 3) images built by add on a current-format manifest, i.e. one that satisfies the invariant; "
         "identity attributes and checksums symbolic (type/format/arch from small tables so that collisions are reachable), cells from a catalogue of three",
